@@ -414,7 +414,7 @@ func runCase(cs poolsim.Case, coqWanted bool) (coqOut string, failOut *failure, 
 				continue
 			}
 			from, to := w.Info(fromN).Index, w.Info(toN).Index
-			fromOK := true
+			fromOK, heightOff := true, false
 			switch corrupt {
 			case "proof":
 				done := false
@@ -445,8 +445,10 @@ func runCase(cs poolsim.Case, coqWanted bool) (coqOut string, failOut *failure, 
 				g.Bytes(from.ID[:])
 				fromOK = false
 			case "basis-height":
+				// a known block under a wrong height: the code looks the basis up by id, so it may
+				// still find a path; whatever it returns must agree with the ledger at the target
 				from.Height += 1 + uint64(g.Intn(3))
-				fromOK = false
+				heightOff = true
 			}
 			// the accumulator the manager holds for the basis decides whether the proofs verify
 			pok := true
@@ -459,6 +461,9 @@ func runCase(cs poolsim.Case, coqWanted bool) (coqOut string, failOut *failure, 
 				}
 			}
 			ex := e.expectation(set, fromN, toN, fromOK, pok)
+			if heightOff && ex.mustErr == "" {
+				ex.mayErr = "the basis height does not match the block"
+			}
 			orig := deepCopy(set)
 			out, err, pan := r.Update(set, metas, from, to)
 			st["updates"]++
